@@ -24,13 +24,15 @@ pub struct RawCfg {
     /// layer sets as real technologies have them: distinct layers sharing a GDSII layer number, purposes carried by several
     /// numbers, and numbers re-assigned from one purpose to another (used where only determinism is judged)
     pub hostile_layers: bool,
+    /// layout / abstract views whose own name differs from the cell's, and zero-width paths (legal, rare)
+    pub odd_views: bool,
 }
 impl RawCfg {
     pub fn gds() -> Self {
-        RawCfg { units: vec![Units::Micro, Units::Nano, Units::Angstrom, Units::Pico], abstracts: false, annotations: false, nets: true, general_polygons: true, paths: true, max_cells: 6, max_elems: 8, right_angles_only: true, inst_names: false, hostile_layers: false }
+        RawCfg { units: vec![Units::Micro, Units::Nano, Units::Angstrom, Units::Pico], abstracts: false, annotations: false, nets: true, general_polygons: true, paths: true, max_cells: 6, max_elems: 8, right_angles_only: true, inst_names: false, hostile_layers: false, odd_views: false }
     }
     pub fn proto() -> Self {
-        RawCfg { units: vec![Units::Micro, Units::Nano, Units::Angstrom], abstracts: true, annotations: true, nets: true, general_polygons: true, paths: true, max_cells: 6, max_elems: 8, right_angles_only: true, inst_names: true, hostile_layers: false }
+        RawCfg { units: vec![Units::Micro, Units::Nano, Units::Angstrom], abstracts: true, annotations: true, nets: true, general_polygons: true, paths: true, max_cells: 6, max_elems: 8, right_angles_only: true, inst_names: true, hostile_layers: false, odd_views: true }
     }
 }
 
@@ -205,12 +207,18 @@ pub fn rand_raw_lib(rng: &mut Rng, cfg: &RawCfg) -> GenRaw {
         let want_layout = !cfg.abstracts || rng.chance(4, 5);
         let mut d = Vec::new();
         if want_layout {
-            let mut lay = Layout { name: name.clone(), ..Default::default() };
+            let lay_name = if cfg.odd_views && rng.chance(1, 4) { format!("{}_impl", name) } else { name.clone() };
+            let mut lay = Layout { name: lay_name, ..Default::default() };
             let ne = rng.usize(cfg.max_elems + 1);
             for k in 0..ne {
                 let (key, _num, purps) = rng.pick(&defs.table).clone();
                 let (purpose, _) = rng.pick(&purps).clone();
-                let (inner, _) = rand_shape(rng, cfg, (k as i64 * 1000, (i as i64 % 3) * 1000));
+                let (mut inner, _) = rand_shape(rng, cfg, (k as i64 * 1000, (i as i64 % 3) * 1000));
+                if cfg.odd_views && rng.chance(1, 6) {
+                    if let Shape::Path(p) = &mut inner {
+                        p.width = 0;
+                    }
+                }
                 let net = if cfg.nets && rng.chance(1, 2) { Some(format!("{}{}_{}", rng.pick(&["net", "VDD", "Clk", "a"]), i, k)) } else { None };
                 lay.elems.push(Element { net, layer: key, purpose, inner });
             }
@@ -255,7 +263,8 @@ pub fn rand_raw_lib(rng: &mut Rng, cfg: &RawCfg) -> GenRaw {
         }
         if cfg.abstracts && (!want_layout || rng.chance(1, 3)) {
             let (w, h) = (rng.range(100, 5000), rng.range(100, 5000));
-            let mut a = Abstract::new(name.clone(), Polygon { points: vec![pt((0, 0)), pt((w, 0)), pt((w, h)), pt((0, h))] });
+            let abs_name = if cfg.odd_views && rng.chance(1, 4) { format!("{}_abs", name) } else { name.clone() };
+            let mut a = Abstract::new(abs_name, Polygon { points: vec![pt((0, 0)), pt((w, 0)), pt((w, h)), pt((0, h))] });
             for pk in 0..rng.usize(4) {
                 let mut port = AbstractPort::new(format!("port{}", pk));
                 let nl = 1 + rng.usize(defs.table.len().min(4));
